@@ -4,6 +4,7 @@ S1(x, der; knots, degree, coeffs), S2(x, y, der1, der2; kts1, deg1, kts2, deg2, 
 from __future__ import annotations
 
 import ast
+import os
 
 import sympy as sp
 from sympy import Function, Symbol
@@ -23,15 +24,88 @@ def sym_of(v):
     return v
 
 
-def argvals(ex: SymExec, call: ast.Call, names):
-    """bind positional/keyword actuals to the given formal names"""
+_FORMALS_SEEN: dict = {}
+
+
+def _repo_formals(name):
+    """parameter lists [(names, number of trailing defaults, defaults all literal 0)] of every definition of `name` in the spline /
+    initialisation modules of the repository being analysed (read from the source, nothing is imported)"""
+    from .core import REPO
+    if name in _FORMALS_SEEN:
+        return _FORMALS_SEEN[name]
+    found = []
+    for sub in ("pygyro/splines", "pygyro/initialisation"):
+        d = os.path.join(str(REPO), sub)
+        if not os.path.isdir(d):
+            continue
+        for fn_ in sorted(os.listdir(d)):
+            if not fn_.endswith(".py"):
+                continue
+            try:
+                txt = open(os.path.join(d, fn_), encoding="utf-8").read()
+                if ("def " + name + "(") not in txt:
+                    continue
+                tree = ast.parse(txt)
+            except (OSError, SyntaxError, UnicodeDecodeError):
+                found.append(None)
+                continue
+            for n in tree.body:
+                if isinstance(n, ast.FunctionDef) and n.name == name:
+                    A = n.args
+                    plain = not (A.vararg or A.kwarg or A.kwonlyargs or getattr(A, "posonlyargs", []))
+                    zero = all(isinstance(d_, ast.Constant) and d_.value == 0 and not isinstance(d_.value, bool) for d_ in A.defaults)
+                    found.append(([a.arg for a in A.args], len(A.defaults), zero) if plain else None)
+    _FORMALS_SEEN[name] = found
+    return found
+
+
+def formals_established(call_name, names, optional):
+    """AUDIT: the handlers below read a call through a FIXED parameter list (`names`, of which the trailing `optional` ones default
+    to 0).  That is a fact about the code only when the routines of that name defined in the repository have exactly these
+    parameters in this order (an evaluator whose parameters were reordered consistently in the definition and at the call sites
+    would otherwise be mis-read).  A name without prefix (a function-valued parameter) stands for the cu_ / nu_ routines."""
+    cands = [call_name] if call_name.startswith(("cu_", "nu_")) or call_name == "f_eq" else ["cu_" + call_name, "nu_" + call_name]
+    seen = 0
+    for c in cands:
+        for sig in _repo_formals(c):
+            if sig is None:
+                return False
+            ns, ndef, zero = sig
+            seen += 1
+            if ns != list(names) or not zero or ndef > len(optional):
+                return False
+    return seen > 0
+
+
+def argvals(ex: SymExec, call: ast.Call, names, optional=()):
+    """bind positional/keyword actuals to the given formal names
+    AUDIT: as Python binds them - star-expanded actuals, more positionals than formals, a keyword that is not a formal or that is
+    already bound, a missing non-optional formal: Undecided; the formal list itself is checked against the repository."""
+    f = call.func
+    cname = f.id if isinstance(f, ast.Name) else f.attr if isinstance(f, ast.Attribute) else None
+    if cname is not None and (cname in SPLINE_HANDLERS) and not formals_established(cname, names, optional):
+        raise Undecided(f"`{cname}`: the parameter list of the routine is not the one this engine reads calls with")
+    if any(isinstance(a, ast.Starred) for a in call.args) or any(k.arg is None for k in call.keywords):
+        raise Undecided(f"star-expanded arguments in `{src(call)[:60]}`")
+    if len(call.args) > len(names):
+        raise Undecided(f"`{src(call)[:60]}`: {len(call.args)} positional arguments for {len(names)} parameters")
     out = {}
     for i, a in enumerate(call.args):
-        if i < len(names):
-            out[names[i]] = ex.ev(a)
+        out[names[i]] = ex.ev(a)
     for k in call.keywords:
+        if k.arg not in names or k.arg in out:
+            raise Undecided(f"`{src(call)[:60]}`: keyword `{k.arg}`")
         out[k.arg] = ex.ev(k.value)
+    missing = [n for n in names if n not in out and n not in optional]
+    if missing:
+        raise Undecided(f"`{src(call)[:60]}`: no argument for {missing}")
     return out
+
+
+def _snap(a):
+    """value of an array operand NOW (the handlers define an output array by a formula over the inputs: a later store into an
+    input does not change the output)"""
+    return a.copy() if isinstance(a, Arr) else a
 
 
 CROSS_FORMALS = ["X", "Y", "kts1", "deg1", "kts2", "deg2", "coeffs", "z", "der1", "der2"]
@@ -42,7 +116,7 @@ FEQ_FORMALS = ["r", "vPar", "CN0", "kN0", "deltaRN0", "rp", "Cti", "kti", "delta
 
 
 def h_cross(ex: SymExec, call: ast.Call):
-    a = argvals(ex, call, CROSS_FORMALS)
+    a = argvals(ex, call, CROSS_FORMALS, ("der1", "der2"))
     a.setdefault("der1", sp.Integer(0))
     a.setdefault("der2", sp.Integer(0))
     z = a["z"]
@@ -51,42 +125,53 @@ def h_cross(ex: SymExec, call: ast.Call):
         raise Undecided("eval_spline_2d_cross arguments")
     fam = tuple(sym_of(a[k]) for k in ("kts1", "deg1", "kts2", "deg2", "coeffs"))
     d1, d2 = a["der1"], a["der2"]
+    if z is X or z is Y:
+        raise Undecided("eval_spline_2d_cross writes into one of its point arrays")
+    X, Y = _snap(X), _snap(Y)
 
     def gen(ix, X=X, Y=Y, d1=d1, d2=d2, fam=fam):
+        if len(ix) != 2:
+            raise Undecided("the output of eval_spline_2d_cross has two axes")
         return S2(X.read([ix[0]]), Y.read([ix[1]]), d1, d2, *fam)
-    z.cells = {}
-    z.generic = gen
+    z.set_all(gen)
     return sp.S.NaN
 
 
 def h_scalar2(ex: SymExec, call: ast.Call):
-    a = argvals(ex, call, SCALAR2_FORMALS)
+    a = argvals(ex, call, SCALAR2_FORMALS, ("der1", "der2"))
     a.setdefault("der1", sp.Integer(0))
     a.setdefault("der2", sp.Integer(0))
     fam = tuple(sym_of(a[k]) for k in ("kts1", "deg1", "kts2", "deg2", "coeffs"))
+    if not all(isinstance(a[k], sp.Expr) for k in ("x", "y", "der1", "der2")) or not all(isinstance(v, sp.Expr) for v in fam):
+        raise Undecided("eval_spline_2d_scalar arguments")
     return S2(a["x"], a["y"], a["der1"], a["der2"], *fam)
 
 
 def h_scalar1(ex: SymExec, call: ast.Call):
-    a = argvals(ex, call, SCALAR1_FORMALS)
+    a = argvals(ex, call, SCALAR1_FORMALS, ("der",))
     a.setdefault("der", sp.Integer(0))
     fam = tuple(sym_of(a[k]) for k in ("knots", "degree", "coeffs"))
+    if not all(isinstance(a[k], sp.Expr) for k in ("x", "der")) or not all(isinstance(v, sp.Expr) for v in fam):
+        raise Undecided("eval_spline_1d_scalar arguments")
     return S1(a["x"], a["der"], *fam)
 
 
 def h_vector1(ex: SymExec, call: ast.Call):
-    a = argvals(ex, call, VECTOR1_FORMALS)
+    a = argvals(ex, call, VECTOR1_FORMALS, ("der",))
     a.setdefault("der", sp.Integer(0))
     y, x = a["y"], a["x"]
     if not (isinstance(y, Arr) and isinstance(x, Arr)):
         raise Undecided("eval_spline_1d_vector arguments")
     fam = tuple(sym_of(a[k]) for k in ("knots", "degree", "coeffs"))
     d = a["der"]
+    # AUDIT: y is x itself (evaluation in place): every y[k] is computed from x[k] before it is overwritten - the values of x NOW
+    x = _snap(x)
 
     def gen(ix, x=x, d=d, fam=fam):
+        if len(ix) != 1:
+            raise Undecided("the output of eval_spline_1d_vector has one axis")
         return S1(x.read([ix[0]]), d, *fam)
-    y.cells = {}
-    y.generic = gen
+    y.set_all(gen)
     return sp.S.NaN
 
 
@@ -95,6 +180,8 @@ def h_feq(ex: SymExec, call: ast.Call):
     missing = [k for k in FEQ_FORMALS if k not in a]
     if missing:
         raise Undecided(f"f_eq call without {missing}")
+    if not all(isinstance(a[k], sp.Expr) for k in FEQ_FORMALS):
+        raise Undecided("f_eq on arguments that are not scalars")
     return FEQ(*[a[k] for k in FEQ_FORMALS])
 
 
